@@ -192,7 +192,7 @@ def build_modelrun():
         raise Broken("extraction", out)
     for f in ("driver.ml", "main.ml"):
         shutil.copy(os.path.join(VERIF, "run", f), ex)
-    rc, out = sh("ocamlfind ocamlopt -O2 -w -a $(ocamlfind ocamldep -sort *.ml *.mli) -o %s" % exe, cwd=ex, timeout=600)
+    rc, out = sh("ocamlfind ocamlopt -package str -linkpkg -O2 -w -a $(ocamlfind ocamldep -sort *.ml *.mli) -o %s" % exe, cwd=ex, timeout=600)
     if rc != 0:
         raise Broken("modelrun-build", out)
 
@@ -209,7 +209,7 @@ def build_harness():
         raise Broken("harness-build", out)
 
 
-def run_harness(mode, outdir, seed, n, tier, extra=(), timeout=1800):
+def run_harness(mode, outdir, seed, n, tier, extra=(), timeout=900):
     shutil.rmtree(outdir, ignore_errors=True)
     os.makedirs(outdir)
     cmd = [os.path.join(BIN, "harness"), mode, "-seed", str(seed), "-n", str(n), "-out", outdir, "-tier", tier] + list(extra)
